@@ -167,6 +167,10 @@ def run(tier='quick'):
                         're-encoding cannot write bytes of one slot into the next', floor=3)
     from . import c03 as _c03
     _c03.fresh_elements(prog, chk, P3, min_instances=3)
+    P4 = chk.rule('P4', 'the whole-track write path (snapshot(), change a field, update()) reads the stored row or its '
+                        'blobs before it writes (necessary for keeping the bytes a snapshot cannot carry: trailing data, '
+                        'default grid, unknown marker values, flags); how they are merged is not judged', floor=1)
+    _whole_update(prog, cg, chk, P4)
     return chk.finish('grammar extraction of the five 2.x codecs (encoder and decoder), field-type '
                       'resolution through the struct declarations, alias / member-assignment tracking '
                       'in the 2.x track setters')
@@ -262,6 +266,44 @@ def _lhs_path(lhs, idx_params):
             return (n.get('referencedDecl') or {}).get('id'), path
         else:
             return None, None
+
+
+def _whole_update(prog, cg, chk, P4):
+    """Necessary condition only: to keep the bytes of the stored blobs that a snapshot cannot carry, update() has to
+    read them - some path from update() to track_table::update must pass a call of track_table::get /
+    get_<blob>.  How the bytes are merged is not judged."""
+    f = prog.func(V2 + 'track_impl::update')
+    chk.analysed(f)
+    reach = cg.reachable([f], stop=lambda g: not prog.in_repo(g.file) or g.cls == V2 + 'track_table')
+    reads, writes = [], []
+    for key, (g, _, _) in reach.items():
+        if g.body is None or g.cls == V2 + 'track_table':
+            continue
+        for n in walk(g.body):
+            if n.get('kind') != 'CXXMemberCallExpr':
+                continue
+            callee = strip(children(n)[0])
+            recv = strip(children(callee)[0]) if children(callee) else {}
+            if 'track_table' not in (recv.get('type') or ''):
+                continue
+            nm = callee.get('name') or ''
+            if nm == 'get' or (nm.startswith('get_') and nm[4:] in BLOBS):
+                reads.append((g, n, nm))
+            if nm == 'update':
+                writes.append((g, n))
+    if not writes:
+        raise AnalysisBroken('P4: v2::track_impl::update no longer reaches track_table::update')
+    for g, n in writes:
+        inst = '%s -> track_table::update' % g.qualname.replace('djinterop::engine::', '')
+        if reads:
+            chk.ok(P4, inst + ' after reading the stored row (%s at %s)' % (reads[0][2], locstr(reads[0][1])), locstr(n))
+        else:
+            chk.violation(P4, 'v2::track_impl::update|stored blobs never read', locstr(n),
+                          '%s: nothing on the way reads the stored row or any of its blobs (track_table::get / '
+                          'get_<blob>): the five performance blobs are re-encoded from the snapshot alone, so trailing '
+                          'data, the default beat grid, marker unknown values, the mid / high loudness bands, the '
+                          'default main cue and loop flags of the stored blobs are replaced although only one field '
+                          'changed' % inst)
 
 
 def _setters(prog, cg, ex, chk, P2):
